@@ -89,7 +89,7 @@ func hasGuard(lf *ir.Leaf, g *ir.Term) bool {
 func (e *Env) modelDecodeOne(l *facts.Level, rule string) *decodeOneModel {
 	c := e.C
 	m := &decodeOneModel{Level: l, Arms: map[string]*armInfo{}}
-	m.Fn = l.Method("decodeOne")
+	m.Fn = l.DecodeOne
 	who := l.String() + ".decodeOne"
 	if m.Fn == nil {
 		c.Fail(rule, who, "", "method not found")
@@ -145,7 +145,7 @@ func (e *Env) modelDecodeOne(l *facts.Level, rule string) *decodeOneModel {
 	}
 	// delegation
 	if l.Lower != nil {
-		low := l.Lower.Method("decodeOne")
+		low := l.Lower.DecodeOne
 		m.Deleg = ir.Call(low, ir.Field(ir.Param(0), l.Embedded), str)
 	}
 	sp := m.Split
@@ -520,7 +520,7 @@ func (e *Env) decodeCallAllowed(t *ir.Term, l *facts.Level) bool {
 				return true
 			}
 			// the embedded level's decodeOne
-			if l.Lower != nil && fn == l.Lower.Method("decodeOne") {
+			if l.Lower != nil && fn == l.Lower.DecodeOne {
 				return true
 			}
 		}
